@@ -87,8 +87,9 @@ func alternateRoutes(root store.Cursor, start Path, env *Env, g *xsel.Grammar, r
 		}
 		return ""
 	}
+	// every third evaluation among the first 9000 of a run, every 33rd after that
 	routeTick++
-	if routeTick%3 != 0 {
+	if routeTick%3 != 0 || routeTick > 9000 && routeTick%33 != 0 {
 		return ""
 	}
 	return oneRoute((routeTick/3)%3, root, start, env, g, res, err)
